@@ -50,6 +50,48 @@ def fail_siblings(rng):
     return {"nodes": nodes, "bound": {}, "entrypoints": None, "selected": None, "ext": [], "int_valued": []}
 
 
+def straddle(rng):
+    """Both branches of a default-open if/else produce the same name and are ready in the step in which a third node
+    fails (the gate's input arrives a step later): branch - failing node - branch in listing order, or a permutation."""
+    nodes = [
+        {"name": "mkc", "kind": "func", "inputs": ["x0"], "outputs": ["c"], "emit": [], "wait_for": [], "defaults": {}, "fn": ["add", 0]},
+        {"name": "gate", "kind": "ifelse", "inputs": ["c"], "outputs": [], "emit": [], "wait_for": [], "defaults": {}, "fn": ["glt", 2],
+         "when_true": "bx", "when_false": "by", "default_open": True},
+        {"name": "bx", "kind": "func", "inputs": ["x0"], "outputs": ["o"], "emit": [], "wait_for": [], "defaults": {}, "fn": ["sym", "bx"]},
+        {"name": "boom", "kind": "func", "inputs": ["x0"], "outputs": ["bad"], "emit": [], "wait_for": [], "defaults": {}, "fn": ["raise", 300]},
+        {"name": "by", "kind": "func", "inputs": ["x0"], "outputs": ["o"], "emit": [], "wait_for": [], "defaults": {}, "fn": ["sym", "by"]},
+    ]
+    if rng.random() < 0.5:
+        rng.shuffle(nodes)
+    return {"nodes": nodes, "bound": {}, "entrypoints": None, "selected": None, "ext": ["x0"], "int_valued": ["x0"]}
+
+
+def mutex_siblings_straddle_failure(g, base, other, msg):
+    """F-b: the sync and async FAILED results disagree on a name because, in the failing step, the asynchronous runner
+    also applied the output of a successful sibling that is listed AFTER the failing node (the synchronous runner stops at
+    the failing node and keeps what the name held before: an earlier sibling's value, an earlier step's value or the seed)."""
+    if "partial value" not in msg or base["status"] != "failed":
+        return False
+    m = __import__("re").match(r".*partial value (\w+)=", msg)
+    if not m:
+        return False
+    name = m.group(1)
+    order = [n["name"] for n in g["nodes"]]
+    producers = [n["name"] for n in g["nodes"] if name in pdl.node_outputs(n)]
+    failing = [n["name"] for n in g["nodes"] if n.get("fn", [None])[0] == "raise"]
+    cnt = lambda log, nm: sum(1 for x, _ in log if x == nm)  # noqa: E731
+    for f in failing:
+        if cnt(base["log"], f) == 0:
+            continue
+        later = [p for p in producers if order.index(p) > order.index(f) and cnt(other["log"], p) > cnt(base["log"], p)]
+        if later:
+            return True
+    return False
+
+
+KNOWN["F-b"] = mutex_siblings_straddle_failure
+
+
 def unique_outputs(g):
     outs = [o for n in g["nodes"] for o in pdl.node_outputs(n)]
     return len(outs) == len(set(outs))
@@ -83,11 +125,14 @@ def run(ctx):
     cases, groups = [], []
     dist = {"family": {}, "failing": 0, "perm": 0, "max_width": 0}
     for _ in range(n_prog):
-        if rng.random() < 0.15:
+        r0 = rng.random()
+        if r0 < 0.15:
             g, fam = fail_siblings(rng), "fail_siblings"
+        elif r0 < 0.19:
+            g, fam = straddle(rng), "straddle"
         else:
             g, fam = gen.gen_program(rng)
-        if fam != "fail_siblings" and rng.random() < 0.25:
+        if fam not in ("fail_siblings", "straddle") and rng.random() < 0.25:
             g = inject_failures(rng, g)
             dist["failing"] += 1
         try:
@@ -123,7 +168,7 @@ def run(ctx):
             if rc.get("permuted") and base["status"] == "failed":
                 continue  # the property claims node-order independence for runs that do not fail
             for msg in compare(base, o, what):
-                fid = classify(g, base, o, msg)
+                fid = classify(cases[j][0], base, o, msg)
                 if fid:
                     ctx.known(fid)
                 else:
@@ -146,7 +191,7 @@ def run(ctx):
 
 def classify(g, base, other, msg):
     """Known-finding matchers (narrow; see known_findings.json)."""
-    for f in KNOWN.values():
+    for fid, f in KNOWN.items():
         if f(g, base, other, msg):
-            return f.__name__
+            return fid
     return None
